@@ -59,7 +59,7 @@ def handler : Handler S where
       match kv rest "tr", kv rest "enc", kvNat rest "items", (kv rest "out").bind parseOutcome, (kv rest "auth").bind parseAuth with
       | some tr, some enc, some items, some out, some auth =>
         if tr = "grpc" then
-          let (w, calls) := grpcFront ⟨auth, true, items⟩ out
+          let (w, calls) := grpcFront ⟨auth, true, items, true, true, true⟩ out
           ({ s with cur := some (.grpc, items, out, auth == some false), wire := none, eq := true },
            [s!"obs wire code={w.code} http=0 retry={showOpt w.retry} calls={calls}",
             s!"obs verdict {showVerdict (expGrpc w)} calls={calls}",
@@ -156,8 +156,14 @@ def handler : Handler S where
       | some "grpc", some kind, some auth, some out =>
         let rq : Option GrpcReq :=
           match kind with
-          | "badbody" => some ⟨auth, false, 1⟩
-          | "fine" => some ⟨auth, true, 1⟩
+          | "badbody" => some ⟨auth, false, 1, true, true, true⟩
+          | "fine" => some ⟨auth, true, 1, true, true, true⟩
+          | "badmethod" => some ⟨auth, true, 1, false, true, true⟩
+          | "badgrpcenc" => some ⟨auth, true, 1, true, false, true⟩
+          | "oversize" => some ⟨auth, true, 1, true, true, false⟩
+          | "badmethod+badbody" => some ⟨auth, false, 1, false, true, true⟩
+          | "badgrpcenc+badbody" => some ⟨auth, false, 1, true, false, true⟩
+          | "oversize+badbody" => some ⟨auth, false, 1, true, true, false⟩
           | _ => none
         match rq with
         | some rq =>
